@@ -129,6 +129,24 @@ theorem C06_service_function_of_set (ops₁ ops₂ : List Op)
     (d₁.next.Perm d₂.next → c₁.next = c₂.next) ∧ (d₁.cur.Perm d₂.cur → c₁.cur = c₂.cur) :=
   keys_function_of_set ops₁ ops₂ h₁ h₂ hd₁ hd₂ hc₁ hc₂
 
+open RegService in
+/-- **The real epoch offsets**: whatever state the service was in, after a successful `inform_epoch e` followed by
+`precompute_epoch_data` the current key is the key of the store's rows of epoch `e - 1` and the next key the key of the
+rows of epoch `e` — what a fresh service reports -/
+theorem C06_service_informed_keys (s : St) (e : Nat) (c : Computed) (h1 : (step s (.inform e)).2 = .ok)
+    (h2 : (step (step s (.inform e)).1 .precompute).1.computed = some c) :
+    RegPaths.build (signersAt s.store (e - 1)) = .ok c.cur ∧ RegPaths.build (signersAt s.store e) = .ok c.next :=
+  informed_keys s e c h1 h2
+
+open RegService in
+/-- **Live = fresh**: a coherent live service whose snapshot holds the store's present rows reports exactly what a
+fresh service, informed of the same epoch over the same store, computes -/
+theorem C06_service_live_is_fresh (s : St) (hcoh : Coh s) (d : Data) (c cf : Computed) (hd : s.data = some d)
+    (hc : s.computed = some c) (hcur : d.cur = signersAt s.store (d.epoch - 1)) (hnext : d.next = signersAt s.store d.epoch)
+    (h1 : (step { store := s.store } (.inform d.epoch)).2 = .ok)
+    (h2 : (step (step { store := s.store } (.inform d.epoch)).1 .precompute).1.computed = some cf) : c = cf :=
+  live_agrees_with_fresh s hcoh d c cf hd hc hcur hnext h1 h2
+
 /-- full coherence (no side condition) is the goal … -/
 def C06_service_coherent_goal : Prop := RegService.coherent_goal
 /-- … which the code as it is does not meet: an update that cannot build the next multi-signer has already replaced
@@ -147,7 +165,7 @@ example : ∃ c, (RegService.run {} [.save ⟨1, 1, 7, 5⟩, .save ⟨2, 1, 7, 5
     RegService.failedUpdate [.save ⟨1, 1, 7, 5⟩, .save ⟨2, 1, 7, 5⟩, .inform 2, .precompute]
       (RegService.run {} [.save ⟨1, 1, 7, 5⟩, .save ⟨2, 1, 7, 5⟩, .inform 2, .precompute]).2 = false := by
   refine ⟨⟨⟨[⟨5, 7⟩], 5⟩, ⟨[⟨5, 7⟩], 5⟩⟩, ?_, ?_⟩ <;>
-  simp [RegService.run, RegService.step, RegService.precompute, RegPaths.build, RegPaths.regLoop, RegPaths.stakeOf,
+  simp [RegService.run, RegService.step, RegService.informed, RegService.precompute, RegPaths.build, RegPaths.regLoop, RegPaths.stakeOf,
     closeReg, RegPaths.ofClose, close, RegService.signersAt, RegService.sameKey, RegService.totalOf, RegService.Row.signer,
     RegService.failedUpdate]
 
